@@ -84,6 +84,7 @@ type Point struct {
 
 // Failure is a violation observed in one execution.
 type Failure struct {
+	Sig2    string `json:"variant,omitempty"` // which exploration variant found it (e.g. "reverse")
 	Sig     string `json:"sig"`
 	Msg     string `json:"msg"`
 	Choices []int  `json:"choices"`
